@@ -158,6 +158,22 @@ def run(rec):
                     fid_err = 1 - abs(np.vdot(nd.ravel(), v.ravel())) ** 2
                     rec.check(fid_err <= 2 * err.eps + 1e-9, 'compress_svd:error-bound',
                               f'1-|<psi|psi_c>|^2 = {fid_err} > 2*reported eps {err.eps}', dict(inp, chi=chi))
+                # ---- apply_local_term: a product of operators on several sites (any order, fermionic with JW), written relative to an offset
+                cand_t = sorted(n for n in s0.opnames if n not in ('Id', 'JW') and all(n in x.opnames for x in sites))
+                if L >= 3 and cand_t:
+                    nops = int(rng.integers(2, 4))
+                    off = int(rng.integers(0, 2))
+                    term = [(str(rng.choice(cand_t)), int(rng.integers(0, L - off))) for _ in range(nops)]
+                    if sum(bool(s0.op_needs_JW(n)) for n, _ in term) % 2 == 0:
+                        psi = psi0.copy()
+                        Od = mpsgen.op_dense(sites, [(n, i + off) for n, i in term])
+                        exp = (Od @ v.reshape(-1)).reshape(v.shape)
+                        if np.linalg.norm(exp) > 1e-8:
+                            ok, _ = rec.guarded('apply_local_term:exception', lambda: psi.apply_local_term(term, i_offset=off, renormalize=False), dict(inp, term=term, i_offset=off))
+                            if ok:
+                                d = mpsgen.dense_state(psi)
+                                rec.check(np.allclose(d, exp, atol=1e-7), 'apply_local_term:state', f'term {term} offset {off}: max dev {np.abs(d - exp).max()}',
+                                          dict(inp, term=term, i_offset=off))
                 # ---- spatial inversion (from a uniform form, and from site-dependent canonical forms)
                 psi = psi0.copy()
                 if rep % 2 == 1:
